@@ -75,9 +75,14 @@ fn gen_rec(rng: &mut Rng, small_alphabet: bool) -> Rec {
         4 => 11,
         _ => rng.range(2, 6) as usize,
     };
-    let phrase: String = (0..len)
+    let mut phrase: String = (0..len)
         .map(|_| if small_alphabet { *rng.pick(&['測', '試', '策', '士', '冊', '市']) } else { gen_char(rng) })
         .collect();
+    // a '#' inside the phrase (not at its start, where it would read as a comment) is an ordinary character
+    if len >= 2 && rng.chance(1, 8) {
+        let at = 1 + rng.below(len as u64 - 1) as usize;
+        phrase = phrase.chars().enumerate().map(|(i, c)| if i == at { '#' } else { c }).collect();
+    }
     let syls = (0..len)
         .map(|_| if small_alphabet { rng.pick(&["ㄘㄜˋ", "ㄕˋ", "ㄙ", "ㄧㄠˋ"]).to_string() } else { gen_syl(rng) })
         .collect();
